@@ -5,12 +5,12 @@ sys.path.insert(0, os.path.join(os.path.dirname(os.path.abspath(__file__)), ".."
 from vlib import *
 
 
-def life_cfg(gen, att, mon, sig, seq, iw=1, mw=3):
+def life_cfg(gen, att, mon, sig, seq, iw=1, mw=3, start_atomic="TRUE"):
     return ('SPECIFICATION Spec\nCONSTANTS MaxGen = %d MaxAttempts = %d InitialWait = %d MaxWait = %d WithMonitor = %s '
-            'CloseSignal = "%s" Sequential = %s AllowCloseFail = FALSE\n'
-            'INVARIANTS FailureDetected OpenHasReader OneCause ClosedHasCause CauseNilIffClean NoSpuriousClose '
+            'CloseSignal = "%s" Sequential = %s AllowCloseFail = FALSE StartAtomic = %s\n'
+            'INVARIANTS FailureDetected OpenHasReader NoStaleReader OneCause ClosedHasCause CauseNilIffClean NoSpuriousClose '
             'AttemptsBounded WaitBounded MonitorToldEveryClose QuietMatch\nPROPERTIES CloseReturns\nCHECK_DEADLOCK FALSE\n'
-            % (gen, att, iw, mw, mon, sig, seq))
+            % (gen, att, iw, mw, mon, sig, seq, start_atomic))
 
 
 def abs_cfg(gen, att, mon, iw=1, mw=3):
@@ -85,7 +85,15 @@ def run(ctx):
     else:
         ctx.tlc_must_hold("AdapterLife", "l.cfg", cfg_text=life_cfg(2, 1, "TRUE", "pergen+id", "FALSE"), timeout=600)
         ctx.tlc("AdapterLife", "l.cfg", cfg_text=life_cfg(3, 2, "FALSE", "shared", "TRUE"), expect_violation="FailureDetected", count=False, timeout=300)
+    # the start-up latency of the read loop, modelled explicitly: TLC finds the stale-reader schedule
+    # (Open, Close, Open before the first loop reads) - a recorded finding, reproduced on real code below
+    r = ctx.tlc("AdapterLife", "l.cfg", cfg_text=life_cfg(3, 1, "FALSE", "pergen+id", "FALSE", start_atomic="FALSE"),
+                expect_violation="NoStaleReader", count=False, timeout=600)
+    if r.violated != "NoStaleReader":
+        raise MachineryError("expected NoStaleReader to be the violated invariant with StartAtomic = FALSE, got %s" % r.violated)
     binary = ctx.go_build("life")
+    rs = drive(ctx, binary, "stale", [], dict(max_attempts=0, initial_wait_ms=1, max_wait_ms=1, with_monitor=False), "stale")
+    ctx.case(key=["stale-reader"], nontrivial=True)
     cut_cov = {}
     total_cuts = 0
     for mon, att in (("TRUE", 2), ("FALSE", 2)) + ((("TRUE", 3),) if thorough else ()):
